@@ -525,3 +525,37 @@ def apply_history(model, edits):
         hist.append(cur)
         states.append((cur, desc))
     return states
+
+
+# ---------------------------------------------------------------------------------------
+# "twins": leaf recipes that carry the same few fragments in different Setup/Script/Finalize
+# placements across a class and the recipe (the placement dimension of C02/C03/C07)
+
+SLOTS = [("c", "setup"), ("c", "script"), ("c", "finalize"), ("r", "setup"), ("r", "script"), ("r", "finalize")]
+
+twins_st = st.lists(st.lists(st.tuples(st.integers(1, 3), st.integers(0, 5)), min_size=2, max_size=3,
+                             unique_by=lambda t: t[1]).map(lambda l: [list(x) for x in l]),
+                    min_size=2, max_size=4)
+
+def _empty_step():
+    return {"setup": None, "script": None, "finalize": None, "vars": [], "varsWeak": [], "tools": [], "toolsWeak": []}
+
+def add_twins(model, twins, base_fid=900):
+    """returns a copy of model with recipes tw<i> (+ classes k<i>) appended and made dependencies of r0.
+    twins: list of arrangements; arrangement = list of [fragment number 1..3, slot index 0..5]"""
+    m = copy.deepcopy(model)
+    for i, arr in enumerate(twins):
+        cb = {"inherit": [], "environment": {}, "steps": {"build": _empty_step(), "package": _empty_step()}}
+        rb = {"root": False, "inherit": ["k%d" % i], "depends": [], "environment": {}, "privateEnvironment": {},
+              "metaEnvironment": {}, "provideVars": {}, "provideDeps": [], "provideTools": {}, "checkoutDeterministic": False,
+              "import": False, "shared": False, "relocatable": None, "tooldirs": False, "fp": False,
+              "steps": {"checkout": _empty_step(), "build": _empty_step(), "package": _empty_step()}}
+        rb["steps"]["package"]["script"] = base_fid
+        for frag, slot in arr:
+            who, name = SLOTS[slot % 6]
+            (cb if who == "c" else rb)["steps"]["build"][name] = base_fid + frag
+        m["classes"]["k%d" % i] = cb
+        m["recipes"].append({"name": "tw%d" % i, "body": rb, "multi": None})
+        m["recipes"][0]["body"]["depends"].append({"name": "tw%d" % i, "use": ["result"], "forward": False, "env": {},
+                                                   "if": None, "checkoutDep": False, "tools": None})
+    return m
